@@ -52,6 +52,10 @@ type vfCluster9 struct {
 	snapUsed int
 	history  []string // app events on shards, in order: "reg:i:x" / "unreg:i:x"
 	cfg      vfC09Cfg
+	// leaveSeen[j][i]: observer j has processed the leave notification of i;
+	// staleAfterLeave[j][i]: after that, j processed a state snapshot taken from i before it left
+	leaveSeen       map[[2]int]bool
+	staleAfterLeave map[[2]int]bool
 }
 
 type vfC09Cfg struct {
@@ -65,7 +69,7 @@ type vfC09Cfg struct {
 func vfNode(i int) string { return fmt.Sprintf("n%d", i+1) }
 
 func vfNewCluster9(cfg vfC09Cfg) *vfCluster9 {
-	c := &vfCluster9{n: cfg.N, cfg: cfg, left: make([]bool, cfg.N)}
+	c := &vfCluster9{n: cfg.N, cfg: cfg, left: make([]bool, cfg.N), leaveSeen: map[[2]int]bool{}, staleAfterLeave: map[[2]int]bool{}}
 	addrs := map[string]string{}
 	for i := 0; i < cfg.N; i++ {
 		addrs[vfNode(i)] = fmt.Sprintf("127.0.0.1:%d", 7000+i)
@@ -189,8 +193,12 @@ func (c *vfCluster9) deliverTo(f *vfFlight) {
 			}
 		}
 	case "state":
+		if c.leaveSeen[[2]int{f.To, f.From}] {
+			c.staleAfterLeave[[2]int{f.To, f.From}] = true
+		}
 		dst.delegate.MergeRemoteState(f.Data, false)
 	case "leave":
+		c.leaveSeen[[2]int{f.To, f.From}] = true
 		(&shardEventDelegate{manager: dst, logger: log.NewNoopLogger()}).NotifyLeave(&memberlist.Node{Name: vfNode(f.From)})
 	}
 }
@@ -390,7 +398,11 @@ func (c *vfCluster9) quiesce() []vfViolation {
 			st, known := remote[vfNode(i)]
 			if c.left[i] {
 				if known {
-					add("convergence/left-instance-still-listed", fmt.Sprintf("%s left, but %s still lists it as owning %d shard(s) (history %v)", vfNode(i), vfNode(j), len(st.Shards), c.history))
+					cause := "leave-notification-had-no-effect"
+					if c.staleAfterLeave[[2]int{j, i}] {
+						cause = "stale-snapshot-processed-after-leave"
+					}
+					add("convergence/left-instance-still-listed/"+cause, fmt.Sprintf("%s left, but %s still lists it as owning %d shard(s) [%s] (history %v)", vfNode(i), vfNode(j), len(st.Shards), cause, c.history))
 				}
 				continue
 			}
